@@ -133,6 +133,16 @@ class GreedyTrace:
         for n in self.NAMES:
             self.est.__dict__.pop(n, None)
 
+    def attach(self, est):
+        """(re-)attach to an estimator object, keeping the event list (used when the object under observation is
+        replaced by its deep copy / unpickled copy between two fits)."""
+        self.est = est
+        cls = type(est)
+        for n in self.NAMES:
+            if hasattr(cls, n):
+                orig = getattr(cls, n).__get__(est, cls)
+                setattr_inst(est, n, getattr(self, "_w" + n)(orig))
+
     # wrappers ------------------------------------------------------------
     def _w_get_best_new_selection(self, orig):
         def w(scorer, X, y):
